@@ -487,7 +487,8 @@ pub fn deviate(rng: &mut Rng, s: &mut Sym, which: usize) -> Option<String> {
                 return None;
             }
             let r = rng.pick(&refs).clone();
-            let suffix = *rng.pick(&["=", "==", " ", "."]);
+            // … or that the digest merely extends (a prefix of it, down to the empty string)
+            let suffix = *rng.pick(&["=", "==", " ", ".", "<", "<<<<<<<<<<", "<<<<<<<<<<<<<<<<<<<<<<<<<<<<<<<<<<<<<<<<<<", "!"]);
             if let Some(Value::Array(a)) = o.get_mut("_sd") {
                 for e in a.iter_mut() {
                     if e.as_str() == Some(r.as_str()) {
@@ -505,7 +506,7 @@ pub fn deviate(rng: &mut Rng, s: &mut Sym, which: usize) -> Option<String> {
                 for e in a.iter_mut() {
                     if let Some(d) = e.get("...").and_then(Value::as_str).map(str::to_string) {
                         if d.starts_with('@') {
-                            *e = json!({"...": format!("{}{}", d, rng.pick(&["=", "==", " "]))});
+                            *e = json!({"...": format!("{}{}", d, rng.pick(&["=", "==", " ", "<", "<<<<<<<<<<", "!", "<<<<<<<<<<<<<<<<<<<<<<<<<<<<<<<<<<<<<<<<<<"]))});
                             return Some("ok_lookalike_placeholder_matches_nothing".into());
                         }
                     }
@@ -567,6 +568,18 @@ pub fn deviate(rng: &mut Rng, s: &mut Sym, which: usize) -> Option<String> {
             s.discs[i] = Value::String(format!("raw:{}", txt));
             Some("ok_reserved_keys_written_with_escapes".into())
         }
+        29 => {
+            // a referenced disclosure that is a JSON *string* whose text is the array (serialised
+            // twice): not an array, so by the algorithm it is not a disclosure of anything
+            let pool: Vec<usize> = member_discs.iter().chain(elem_discs.iter()).copied().collect();
+            if pool.is_empty() {
+                return None;
+            }
+            let i = *rng.pick(&pool);
+            let inner = s.discs[i].to_string();
+            s.discs[i] = Value::String(format!("raw:{}", Value::String(inner)));
+            Some("double_encoded_disclosure".into())
+        }
         25 => {
             // one malformed digest string (too short, not base64url, truncated) at two places
             if objs.is_empty() {
@@ -595,7 +608,7 @@ pub fn deviate(rng: &mut Rng, s: &mut Sym, which: usize) -> Option<String> {
     }
 }
 
-pub const N_DEVIATIONS: usize = 29;
+pub const N_DEVIATIONS: usize = 30;
 
 fn to_cred(s: &Sym, issuer: usize) -> CredSpec {
     CredSpec::Byz {
